@@ -19,12 +19,12 @@ import (
 func (m *Model) ruleCOMMIT(r *Results) {
 	const rule = "R-COMMIT"
 	a := &m.A
-	fn := a.TxnRunner
+	fn := a.TxnCore
 	if fn == nil {
 		r.undecided(rule, "txn runner", "-", "anchor unresolved: %s", a.Problems["TxnRunner"])
 		return
 	}
-	name := m.declName(fn)
+	name := m.roleOf(a.TxnRunner)
 	var begin, commit, rollback, cb, lock, deferUnlock ssa.CallInstruction
 	explicitUnlock := false
 	m.eachCall(fn, func(c ssa.CallInstruction) {
@@ -67,9 +67,8 @@ func (m *Model) ruleCOMMIT(r *Results) {
 	// (1) mutex held across Begin..Commit/Rollback (decided by the lockset engine, so that lock helpers are understood)
 	spans := true
 	{
-		fl := m.flowLocks(fn, lockset{})
 		holds := func(in ssa.Instruction) bool {
-			for l := range fl.mustAt[in] {
+			for l := range m.heldAt(in) { // includes what the runner's callers on the chain hold
 				if l.Field == a.BucketMutex {
 					return true
 				}
@@ -81,9 +80,13 @@ func (m *Model) ruleCOMMIT(r *Results) {
 				spans = false
 			}
 		}
-		for _, op := range fl.ops {
-			if !op.Acquire && !op.Deferred && op.Lock.Field == a.BucketMutex {
-				spans = false // an early, non-deferred unlock
+		for _, cf := range a.TxnChain {
+			if fl := m.locks().fns[cf]; fl != nil {
+				for _, op := range fl.ops {
+					if !op.Acquire && !op.Deferred && op.Lock.Field == a.BucketMutex {
+						spans = false // an early, non-deferred unlock
+					}
+				}
 			}
 		}
 	}
@@ -91,18 +94,41 @@ func (m *Model) ruleCOMMIT(r *Results) {
 	_ = dom
 	r.check(spans, rule, name+" / mutex spans the transaction", m.instrPos(begin),
 		"bucket mutex locked before Begin and released only by a deferred Unlock", "the bucket mutex is not held from before Begin until after Commit/Rollback (lock, deferred unlock, no early unlock): transactions of different handles could interleave")
-	// (2) closed flag tested before Begin
+	// (2) closed flag tested before Begin (in the function itself or further out on the runner chain)
 	{
-		c := newCut()
-		found := false
-		for _, iff := range allIfs(fn) {
-			cd := condOf(iff)
-			if _, f, ok := fieldLoad(cd.X); ok && f == a.ClosedField && cd.Op == token.ILLEGAL {
-				c.cutEdge(iff.Block(), cd.succWhen(false))
-				found = true
+		var guarded func(f *ssa.Function, at ssa.Instruction, depth int) bool
+		guarded = func(f *ssa.Function, at ssa.Instruction, depth int) bool {
+			c := newCut()
+			found := false
+			for _, iff := range allIfs(f) {
+				cd := condOf(iff)
+				if _, fl, ok := fieldLoad(cd.X); ok && fl == a.ClosedField && cd.Op == token.ILLEGAL {
+					c.cutEdge(iff.Block(), cd.succWhen(false))
+					found = true
+				}
 			}
+			if found && !entryReach(f, c)[at.Block().Index] {
+				return true
+			}
+			if depth > 4 || !m.onTxnChain(f) || f == a.TxnRunner {
+				return false
+			}
+			callers := m.staticCallersOf(f)
+			if len(callers) == 0 {
+				return false
+			}
+			for _, cs := range callers {
+				if !guarded(cs.Parent(), cs, depth+1) {
+					return false
+				}
+			}
+			return true
 		}
-		r.check(found && !entryReach(fn, c)[begin.Block().Index], rule, name+" / closed handle refused", m.instrPos(begin), "Begin is reachable only when the handle is not closed", "a closed handle can still begin a transaction")
+		found := true
+		c := newCut()
+		ok2 := guarded(fn, begin, 0)
+		_ = c
+		r.check(found && ok2, rule, name+" / closed handle refused", m.instrPos(begin), "Begin is reachable only when the handle is not closed", "a closed handle can still begin a transaction")
 	}
 	// (3) Commit only when the callback returned nil
 	cbErr := cb.Value()
@@ -303,9 +329,40 @@ func (m *Model) casScanCell(v ssa.Value, fn *ssa.Function) (bool, string) {
 		if al, ok := v.(*ssa.Alloc); ok {
 			return m.cellIsCasScan(al, fn)
 		}
-		return false, "not a load of a scanned cell"
+		return m.casViaTerms(v, fn, "not a load of a scanned cell")
 	}
-	return m.cellIsCasScan(ld.X, fn)
+	if ok, why := m.cellIsCasScan(ld.X, fn); !ok {
+		return m.casViaTerms(v, fn, why)
+	}
+	return true, ""
+}
+
+// casViaTerms: the compared value, evaluated as a term in the closure (read helpers inlined),
+// is documents.cas read through the transaction (or zero when the row is absent).
+func (m *Model) casViaTerms(v ssa.Value, fn *ssa.Function, why string) (bool, string) {
+	in, ok := v.(ssa.Instruction)
+	if !ok || in.Parent() != fn {
+		return false, why
+	}
+	e := m.newTermEval()
+	t := e.term(v, in, m.closureFrame(fn))
+	if t == nil {
+		return false, why
+	}
+	nScan := 0
+	for _, alt := range t.alts() {
+		switch {
+		case alt.Kind == "zero":
+		case alt.Kind == "scan" && alt.Col == "cas" && strings.HasPrefix(alt.Name, "documents."):
+			if alt.Handle != "txn" {
+				return false, "the current CAS is read outside the transaction (handle " + alt.Handle + ")"
+			}
+			nScan++
+		default:
+			return false, why
+		}
+	}
+	return nScan > 0, why
 }
 
 func (m *Model) cellIsCasScan(cell ssa.Value, fn *ssa.Function) (bool, string) {
@@ -847,6 +904,61 @@ func (m *Model) ruleRMW(r *Results) {
 	}
 	if len(loops) < 3 {
 		r.undecided(rule, "instance-floor", "-", "found %d read-modify-write loops, 3 were confirmed by hand (Update, sub-document writer, WriteUpdateWithXattrs)", len(loops))
+	}
+	// (d) UpdateFunc contract (sg-bucket): "updated == nil and !delete" means "leave the body alone", so the
+	// body written back must be either the callback's body or the body that was read
+	for _, lp := range loops {
+		fn := lp.Fn
+		var cbCall *ssa.Call
+		m.eachCall(fn, func(c ssa.CallInstruction) {
+			if call, ok := c.(*ssa.Call); ok && c.Common().StaticCallee() == nil && !c.Common().IsInvoke() {
+				if isNamed(c.Common().Value.Type(), sgbucketPath, "UpdateFunc") {
+					cbCall = call
+				}
+			}
+		})
+		if cbCall == nil {
+			continue
+		}
+		for _, w := range lp.Writes {
+			// the []byte / any body argument of the write-back
+			for _, arg := range w.Common().Args {
+				v := stripConv(arg)
+				if _, isSlice := v.Type().Underlying().(*types.Slice); !isSlice {
+					continue
+				}
+				fromRead, fromCb := false, false
+				var walk func(x ssa.Value, d int)
+				seen := map[ssa.Value]bool{}
+				walk = func(x ssa.Value, d int) {
+					x = stripConv(x)
+					if d > 6 || seen[x] {
+						return
+					}
+					seen[x] = true
+					switch y := x.(type) {
+					case *ssa.Phi:
+						for _, e := range y.Edges {
+							walk(e, d+1)
+						}
+					case *ssa.Extract:
+						if y.Tuple == ssa.Value(cbCall) {
+							fromCb = true
+						}
+						for _, rd := range lp.Reads {
+							if rd.Value() != nil && y.Tuple == ssa.Value(rd.Value()) {
+								fromRead = true
+							}
+						}
+					}
+				}
+				walk(v, 0)
+				if !fromCb {
+					continue
+				}
+				r.check(fromRead, rule, m.declName(fn)+" / callback may leave the body alone", m.instrPos(w), "the body written back is the callback's, or the body that was read when the callback returns none", "the body written back is always the callback's result: a callback that only changes the expiry (updated == nil, delete == false, which the UpdateFunc contract defines as 'leave the value alone') makes the write store a nil body, i.e. tombstones the document")
+			}
+		}
 	}
 	// sub-document writer: a caller-supplied CAS is compared with the read CAS before the write
 	for _, lp := range loops {
